@@ -274,6 +274,14 @@ class Parser:
         token = self._assert(self.next_token, TokenType.BRACKET_RIGHT)
         token = self._assert_and_cunsume(TokenType.BRACKET_RIGHT)
         root.tokens.append(token)
+
+        # nothing but comments may follow the document, otherwise a stray
+        # `)` would silently cut the tree short
+        while (token := self.next_token) is not None:
+            if token.type != TokenType.COMMENT:
+                raise TokenTypeError(token, "EOF")
+            self._consume()
+
         return root
 
     def _parse_tree(self, root: ASTNode) -> None:
